@@ -543,3 +543,12 @@ package db
 //@   loop 2 invariant[index]   indexOK(tree, revIndexes, rep.Revs)
 //@   loop 2 invariant[all]     forall k string :: {k in tree} (k in tree) ==> (k in revIndexes)
 //@   loop 2 invariant[done]    forall j int :: {rep.Revs[j]} 0 <= j && j <= #index && (rep.Revs[j] in tree) ==> parentSlotOK(tree, rep.Revs, rep.Parents, j)
+
+// ---- external revision bodies ----
+
+// deleteRemovedRevisionBodies (run by updateAndReturnDoc after the commit, see [cleanup-after-commit] there) leaves
+// the record of bodies to delete empty. Frame `modifies *`: DataStore.Delete is an interface call without contract.
+//@ func Document.deleteRemovedRevisionBodies
+//@   requires doc != nil
+//@   modifies *
+//@   ensures[record-cleared] doc.removedRevisionBodyKeys != nil && (forall k string :: {k in doc.removedRevisionBodyKeys} !(k in doc.removedRevisionBodyKeys))
